@@ -76,7 +76,7 @@ def c01(rnd, budget):
     for backend in backends:
         for n_jobs in (1, 2, 3):
             for batch_size in ("auto", 1, 2, 5):
-                for pre in ("2 * n_jobs", "all", 1, "n_jobs"):
+                for pre in ("2 * n_jobs", "all", 1, "n_jobs", "0.25 * n_jobs", 0):
                     for ret in ("list", "generator"):
                         if backend in ("loky", "multiprocessing") and (rnd.random() < (0.7 if budget == "small" else 0.4)):
                             continue
